@@ -1,4 +1,5 @@
 SPECIFICATION TSpec
+INVARIANT KeysAreContributors
 INVARIANT Once
 INVARIANT BasesFirst
 INVARIANT ReportIffCyclic
